@@ -1253,9 +1253,12 @@ class ReferenceResolver:
             True (has unresolved crossrefs) or False (else)
         """
         if get_model(obj) != self.model:
-            return get_model(obj)._tx_reference_resolver.has_unresolved_crossrefs(
-                obj, attr_name
-            )
+            other_resolver = getattr(get_model(obj), "_tx_reference_resolver", None)
+            if other_resolver is None:
+                # the model of obj is finished (e.g. handed over by a global
+                # repository): nothing is left to be resolved there
+                return False
+            return other_resolver.has_unresolved_crossrefs(obj, attr_name)
         else:
             for crossref_obj, attr, _ in self.parser._crossrefs:
                 if crossref_obj is obj and ((not attr_name) or attr_name == attr.name):
